@@ -212,7 +212,7 @@ def r19_1(ctx: Ctx) -> RuleResult:
 
 
 def r19_2(ctx: Ctx) -> RuleResult:
-    rr = RuleResult("R19.2", "matches that are not arrays or objects produce no projection", floor=3)
+    rr = RuleResult("R19.2", "matches that are not arrays or objects produce no projection", floor=1)  # one per projecting return; branches may be merged
     fn = ctx.repo.require_func("Query._select")
     m = fn.node.args.args[1].arg
     subj = f"{m}.obj"
